@@ -525,3 +525,74 @@ Theorem new_node_is_single :
   [("t.mkNode", [GNil; GNil; GNil; GInt 1;
                  GBin "+" (GCall "uint64" [GCall "len" [GVar "item.Key"]]) (GCall "uint64" [GCall "item.NumValBytes" [GVar "t"]])])].
 Proof. vm_compute. reflexivity. Qed.
+
+(* ------------------------------------------------------------------------------------------- *)
+(* 22. the StoreCallbacks wrappers (C17): when a callback is installed its result is used verbatim, with the arguments
+   the wrapper was given; otherwise the default is one WriteAt of Item.Val / a fresh buffer of valLength bytes filled by
+   one ReadAt / len(Item.Val) / a fresh Item with a key buffer; the reference hooks do nothing unless installed *)
+Theorem callback_wrappers :
+  body "Store.ItemValWrite" =
+    [SIf [] (GBin "!=" (GVar "s.callbacks.ItemValWrite") GNil)
+       [SReturn [GCall "s.callbacks.ItemValWrite" [GVar "c"; GVar "i"; GVar "w"; GVar "offset"]]] [];
+     SAssign [GVar "_"; GVar "err"] ":=" [GCall "w.WriteAt" [GVar "i.Val"; GVar "offset"]];
+     SReturn [GVar "err"]] /\
+  body "Store.ItemValRead" =
+    [SIf [] (GBin "!=" (GVar "s.callbacks.ItemValRead") GNil)
+       [SReturn [GCall "s.callbacks.ItemValRead" [GVar "c"; GVar "i"; GVar "r"; GVar "offset"; GVar "valLength"]]] [];
+     SAssign [GVar "i.Val"] "=" [GCall "make" [GOther "[]byte"; GVar "valLength"]];
+     SAssign [GVar "_"; GVar "err"] ":=" [GCall "r.ReadAt" [GVar "i.Val"; GVar "offset"]];
+     SReturn [GVar "err"]] /\
+  body "Item.NumValBytes" =
+    [SIf [] (GBin "!=" (GVar "c.store.callbacks.ItemValLength") GNil)
+       [SReturn [GCall "c.store.callbacks.ItemValLength" [GVar "c"; GVar "i"]]] [];
+     SReturn [GCall "len" [GVar "i.Val"]]] /\
+  body "Store.ItemAlloc" =
+    [SIf [] (GBin "!=" (GVar "s.callbacks.ItemAlloc") GNil)
+       [SReturn [GCall "s.callbacks.ItemAlloc" [GVar "c"; GVar "keyLength"]]] [];
+     SReturn [GUn "&" (GOther "Item{Key: make([]byte, keyLength)}")]] /\
+  body "Store.ItemAddRef" =
+    [SIf [] (GBin "!=" (GVar "s.callbacks.ItemAddRef") GNil) [SExpr (GCall "s.callbacks.ItemAddRef" [GVar "c"; GVar "i"])] []] /\
+  body "Store.ItemDecRef" =
+    [SIf [] (GBin "!=" (GVar "s.callbacks.ItemDecRef") GNil) [SExpr (GCall "s.callbacks.ItemDecRef" [GVar "c"; GVar "i"])] []].
+Proof. repeat split; vm_compute; reflexivity. Qed.
+
+Ltac in_tac := vm_compute; repeat (first [left; reflexivity | right]).
+
+(* before-write / after-read hooks: used only when installed, on the item about to be written / just read *)
+Theorem item_hooks_guarded :
+  In (GBin "!=" (GVar "c.store.callbacks.BeforeItemWrite") GNil) (conds 400 (body "itemLoc.write")) /\
+  In (GBin "!=" (GVar "c.store.callbacks.AfterItemRead") GNil) (conds 400 (body "itemLoc.read")) /\
+  In ("c.store.callbacks.BeforeItemWrite", [GVar "c"; GVar "iItem"]) (calls_a 400 (body "itemLoc.write")) /\
+  In ("c.store.callbacks.AfterItemRead", [GVar "c"; GVar "i"]) (calls_a 400 (body "itemLoc.read")).
+Proof. repeat split; in_tac. Qed.
+
+(* 23. item references (C15, Refcount.v: one event per place where the code touches a reference) *)
+Definition has_sub (sub s : string) : bool := match index 0 sub s with Some _ => true | None => false end.
+
+Theorem reference_sites :
+  (* Exist gives back the reference GetItem took *)
+  body "Collection.Exist" =
+    [SAssign [GVar "val"; GVar "_"] ":=" [GCall "t.GetItem" [GVar "key"; GVar "false"]];
+     SIf [] (GBin "!=" (GVar "val") GNil)
+       [SExpr (GCall "t.store.ItemDecRef" [GVar "t"; GVar "val"]); SReturn [GVar "true"]] [];
+     SReturn [GVar "false"]] /\
+  (* Len and CopyTo give back the reference MinItem took, CopyTo once per collection (inside its loop) *)
+  In (SDefer (GCall "t.store.ItemDecRef" [GVar "t"; GVar "si"])) (body "Collection.Len") /\
+  In (SDefer (GCall "s.ItemDecRef" [GVar "srcColl"; GVar "minItem"]))
+     (match nth_error (body "Store.CopyTo") 4 with Some (SRange _ _ _ b) => b | _ => [] end) /\
+  (* GetItem takes exactly one reference for the caller, as its last call; SetItem one for the tree, before union *)
+  count_occ string_dec (call_list "Collection.GetItem") "t.store.ItemAddRef" = 1%nat /\
+  last (call_list "Collection.GetItem") "" = "t.store.ItemAddRef" /\
+  count_occ string_dec (call_list "Collection.SetItem") "t.store.ItemAddRef" = 1%nat /\
+  before "t.store.ItemAddRef" "t.store.union" (call_list "Collection.SetItem") = true /\
+  (* a freed node releases its item; an item evicted during a visit is released *)
+  In "t.store.ItemDecRef" (call_list "Collection.freeNodeUnlocked") /\
+  existsb (has_sub "o.ItemDecRef(t, i)") (call_list "Store.visitNodes") = true.
+Proof. repeat split; try (vm_compute; reflexivity); in_tac. Qed.
+
+(* 24. visitNodes reads the item key-only on the way down and re-reads it with exactly the caller's withValue before
+   delivering it (C19, C06) *)
+Theorem visit_item_reads :
+  filter (fun c => String.eqb (fst c) "nItemLoc.read") (calls_a 400 (body "Store.visitNodes")) =
+  [("nItemLoc.read", [GVar "t"; GVar "false"]); ("nItemLoc.read", [GVar "t"; GVar "withValue"])].
+Proof. vm_compute. reflexivity. Qed.
